@@ -813,8 +813,36 @@ def _split_tuple_assignments(tree):
                 return out[:i] + [new]
             return out
 
+        def _if_clamp(self, n):
+            """`if a < x: x = a` (no else, x a local name, the body nothing but that assignment) is `x = min(x, a)`; with `>` it is max.
+            Python's min(x, a) returns a exactly when `a < x`, so this is the same value also for ties and NaN."""
+            if n.orelse or len(n.body) != 1 or not isinstance(n.body[0], ast.Assign) or len(n.body[0].targets) != 1:
+                return None
+            asg = n.body[0]
+            t, v = asg.targets[0], asg.value
+            if not isinstance(t, ast.Name) or not isinstance(n.test, ast.Compare) or len(n.test.ops) != 1:
+                return None
+            l, op, r = n.test.left, n.test.ops[0], n.test.comparators[0]
+            same = lambda a, b: ast.dump(a) == ast.dump(b)
+            tl = ast.Name(id=t.id, ctx=ast.Load())
+            fn = None
+            if same(l, v) and same(r, tl) and isinstance(op, ast.Lt):
+                fn = "min"          # if a < x: x = a
+            elif same(r, v) and same(l, tl) and isinstance(op, ast.Gt):
+                fn = "min"          # if x > a: x = a
+            elif same(l, v) and same(r, tl) and isinstance(op, ast.Gt):
+                fn = "max"          # if a > x: x = a
+            elif same(r, v) and same(l, tl) and isinstance(op, ast.Lt):
+                fn = "max"          # if x < a: x = a
+            if fn is None or any(isinstance(x, ast.Name) and x.id == t.id for x in ast.walk(v)):
+                return None
+            return ast.copy_location(ast.Assign(targets=[t], value=ast.Call(func=ast.Name(id=fn, ctx=ast.Load()), args=[tl, v], keywords=[]), type_comment=None), n)
+
         def visit_If(self, n):
             n = self.generic_visit(n)
+            c_ = self._if_clamp(n)
+            if c_ is not None:
+                return ast.fix_missing_locations(c_)
             n.body = self._sink_tail_call(n.body)
             n.orelse = self._sink_tail_call(n.orelse)
             return n
